@@ -7,6 +7,7 @@
 package seqmc
 
 import (
+	"os"
 	"fmt"
 	"runtime"
 	"runtime/debug"
@@ -99,6 +100,8 @@ type Spec struct {
 	PureObservers bool
 	observeOp     bool // set by Run after the observers were seen to change the state
 }
+
+var traceComp = os.Getenv("VERIF_SEQ_TRACE") // debugging aid: print every transition of one component
 
 type Path struct {
 	Init string `json:"init"`
@@ -422,6 +425,9 @@ func (sp *Spec) runOnce(rep *core.Report) Stats {
 						st.ObserversStateful = true
 					}
 					np := Path{p.Init, append(append([]Op{}, p.Ops...), r.op)}
+					if traceComp != "" && traceComp == sp.Component {
+						fmt.Fprintf(os.Stderr, "trace %s: %s -> fails=%d key=%.60q\n", sp.Component, np.String(), len(r.fails), r.key)
+					}
 					if len(r.fails) > 0 {
 						cut := false
 						for _, f := range r.fails {
